@@ -25,7 +25,7 @@ RULE = ('case kinds: (faulty_server) a scripted peer plays the server side of th
 ASSUMPTIONS = ['15 s separates "finite" from "hung": no timeout inside the handshake code exceeds 5 s', 'the scripted peer closes its sockets at the latest 1.5 s after going silent']
 SHRINK = 'none'
 TIME_BUDGET = {'quick': 170, 'thorough': 1700}
-REQUIRED = {'quick': {'kind:faulty_server': 100, 'kind:child_dies': 40, 'kind:unknown_ctx': 4, 'step:addr_msg': 50, 'step:info_msg': 12, 'server_killed_mid_request': 25},
+REQUIRED = {'quick': {'kind:faulty_server': 100, 'kind:child_dies': 40, 'kind:unknown_ctx': 4, 'kind:unsendable_work': 20, 'step:addr_msg': 50, 'step:info_msg': 12, 'server_killed_mid_request': 25},
             'thorough': {'kind:faulty_server': 1000, 'kind:child_dies': 300}}
 LIMIT = 15.0
 
@@ -49,7 +49,10 @@ def strategy(tier):
     uc = st.fixed_dictionaries({'kind': st.just('unknown_ctx'), 'worker': st.sampled_from(['remote', 'p_remote']), 'ctx': st.integers(1000, 1005)})
     ur = st.fixed_dictionaries({'kind': st.just('unreachable'), 'worker': st.sampled_from(['remote', 'p_remote'])})
     sd = st.fixed_dictionaries({'kind': st.just('server_dies'), 'worker': st.sampled_from(['remote', 'p_remote']), 'n_raw': st.integers(0, 2000)})
-    return st.one_of(fs, fs, fs, cd, cd, uc, ur, sd, sd)
+    # start-up fails before anything is sent: the work (target / arguments / initial state) cannot be serialised
+    us = st.fixed_dictionaries({'kind': st.just('unsendable_work'), 'worker': st.sampled_from(['remote', 'p_remote', 'remote', 'p_remote', 'process', 'p_process']),
+                                'what': st.sampled_from(['lock_in_args', 'lock_in_kwargs', 'lambda_target', 'local_function_target', 'lock_in_init_state', 'socket_in_args'])})
+    return st.one_of(fs, fs, fs, cd, cd, uc, ur, sd, sd, us)
 
 
 def exhaustive(tier, shard, nshards):
@@ -251,6 +254,33 @@ def run_case(case, ctx):
 
             def ctor():
                 return cls(None, context=case['ctx'], host=srv.addr, name=IC.fresh_name(ctx, 'c20'))
+        elif kind == 'unsendable_work':
+            import threading
+            kw = {}
+            if worker.endswith('remote'):
+                kw['host'] = IC.server(ctx).addr
+                before = set(census(ctx.tag))
+            what = case['what']
+            site = f'{kind}:{worker}:{what}'
+            out.label('unsendable:' + what)
+            target = vtargets.sq
+            a, k = ([3], {})
+            if what == 'lock_in_args':
+                target, a = vtargets.echo2, [3, threading.Lock()]
+            elif what == 'socket_in_args':
+                target, a = vtargets.echo2, [3, socket.socket()]
+            elif what == 'lock_in_kwargs':
+                target, a, k = vtargets.echo2, [3], {'b': threading.Lock()}
+            elif what == 'lambda_target':
+                target = lambda x: x
+            elif what == 'local_function_target':
+                def target(x):
+                    return x
+            elif what == 'lock_in_init_state':
+                kw['init_state'] = {'l': threading.Lock()}
+
+            def ctor():
+                return cls(target, args=a, kwargs=k, name=IC.fresh_name(ctx, 'c20'), **kw)
         elif kind == 'unreachable':
             s = socket.socket(); s.bind(('127.0.0.1', 0)); dead = s.getsockname(); s.close()
 
@@ -312,7 +342,7 @@ def run_case(case, ctx):
         if fs is not None:
             res['cut'] = fs.effective_cut
             res['msg_len'] = fs.msg_len
-        out.nontrivial = kind in ('child_dies', 'unknown_ctx', 'server_dies') or (kind == 'faulty_server' and (case['step'] not in ('addr_msg', 'info_msg') or (fs.effective_cut or 0) > 0))
+        out.nontrivial = kind in ('child_dies', 'unknown_ctx', 'server_dies', 'unsendable_work') or (kind == 'faulty_server' and (case['step'] not in ('addr_msg', 'info_msg') or (fs.effective_cut or 0) > 0))
         out.key = dict(case, eff=res.get('cut'), n=res.get('n'))
         if res['ctor'] == 'blocked':
             out.viol('constructor_hangs', site, f'constructor did not return or raise within {LIMIT}s ({res})')
@@ -353,7 +383,7 @@ def run_case(case, ctx):
             except Exception:
                 pass
             kill_pids([p for p in census(ctx.tag) if p not in before])
-        if kind in ('unknown_ctx', 'child_dies') and worker.endswith('remote') and not IC.server_healthy(ctx):
+        if kind in ('unknown_ctx', 'child_dies', 'unsendable_work') and worker.endswith('remote') and not IC.server_healthy(ctx):
             # a wedged or dead server is C11's business; here it only needs replacing
             out.label('server_replaced')
             IC.stop_server(ctx)
